@@ -251,6 +251,12 @@ func runLockup(seed uint64, n int, outDir string, replay string) {
 						if len(evm.ETXCache) != base {
 							o.Violate("c12-lockup-claim-etx-survives-revert", "ETX of a reverted claim stays in the cache")
 						}
+						// and two more records, read through the model as well
+						for j := 0; j < 2; j++ {
+							k2 := pickKey()
+							o.Op("read %d %d %d %d", k2.o, 0x10+k2.m, k2.b, k2.e)
+							ans(lkRec(mdb, batch, lkAddr(k2.o, false), lkAddr(0x10+k2.m, false), k2.b, k2.e))
+						}
 						if allAfter := allRecs(); allAfter != allBefore {
 							// e.g. a record claimed by an earlier, successful frame of the same transaction comes back
 							o.Violate("c12-reverted-frame-changes-other-lockup-records", "the lockup ledger (all owners, miners, bytes, epochs) differs before and after a frame that claimed and reverted")
